@@ -53,6 +53,17 @@ def gen_session(seed, tier, weights, ncmd_range=(1, 6), initial_filter_p=0.25, m
         cfg['filter_model'] = m
     cmds = S.gen_commands(rng, voc, rng.randint(*ncmd_range), weights)
     sc['intents'] = S.insert_commands(rng, intents, cmds)
+    if nconn >= 2 and rng.random() < 0.2:
+        sc['intents'] = S.revisit_flavour(rng, sc['intents'], voc.conns)
+    if nconn >= 2 and pid == 'C06' and rng.random() < 0.15:
+        # a backend closes one connection in the middle of the session; its traffic stops there, everybody else goes on
+        c = rng.randrange(nconn)
+        acts = [i for i, it in enumerate(sc['intents']) if it[0] == 'act' and it[1] == c]
+        if len(acts) >= 2:
+            pos = acts[rng.randrange(1, len(acts))]
+            sc['intents'] = [it for i, it in enumerate(sc['intents']) if not (i >= pos and it[0] == 'act' and it[1] == c)]
+            sc['intents'].insert(min(pos, len(sc['intents'])), ['close', c])
+            cfg['mid_stream_close'] = True
     return sc
 
 
@@ -101,6 +112,10 @@ def run_and_judge(sc, want, prefix):
     return st, res, tr, V
 
 
+def meta_closing(v):
+    return 'list *' in v['detail'] and 'selection None' in v['detail']
+
+
 def finish(sc, st, res, V, nontrivial):
     cmds = [(i, it[1]) for i, it in enumerate(sc['intents']) if it[0] == 'cmd']
     inter = ''.join(str(it.conn) for _, it in st.lines if isinstance(it, W.Closure))
@@ -119,8 +134,9 @@ def execute(sc):
     for v in V0.list:
         if v['sig'].startswith('C06/'):
             V.list.append(v)
-        elif v['sig'].startswith('C11/') and 'list *' in v['detail']:
-            V.add('C06/not-recorded', 'closing-list', v['detail'])
+        elif v['sig'].startswith('C11/content') or v['sig'].startswith('C11/counts') or v['sig'].startswith('C11/last-n'):
+            # every message, shown or not, is recorded for later queries: a listing that misses one is a recording failure
+            V.add('C06/not-recorded', 'closing-list' if meta_closing(v) else 'listing', v['detail'])
     changed = any(it[0] == 'cmd' and it[2].get('t') in ('filter', 'connection') for it in sc['intents'])
     nontrivial = changed and V.counters.get('live_must_shown', 0) > 0 and V.counters.get('live_must_hidden', 0) > 0
     return finish(sc, st, res, V, nontrivial)
